@@ -21,6 +21,8 @@ structure PagePred (D : Deps) where
   Q : Col → Batch → Prop
   empty : ∀ c, P c {}
   add : ∀ c p b, P c p → Q c b → P c (addValues D c p b)
+  /-- a builder without entries holds no repetition levels -/
+  repsWF : ∀ c p, P c p → p.numValues = 0 → p.reps = []
 
 variable {D : Deps}
 
@@ -46,17 +48,22 @@ def ChunksFor (codec : Nat) : List Col → List ChunkMeta → Prop
 /-- rows a column writer has received in the open row group -/
 def colRows (cw : ColW) : Nat := (cw.pages.map (·.src.numValues)).sum + cw.page.numValues
 
-/-- rows of the first column of a finished row group (0 for a schema without columns) -/
+/-- level entries of the first column of a finished row group (0 for a schema without columns) -/
 def firstRows (g : List (List PageRec)) : Nat := (g.map (fun p => (pagesData p).rows)).headD 0
 
-/-- zip-style: `num_rows` of every row group is the row count of its first column -/
-def RowsZip : List RgMeta → List (List (List PageRec)) → Prop
+/-- rows (records) a column writer has received in the open row group: its entries, or — REPEATED —
+its entries with repetition level 0 -/
+def colRecs (c : Col) (cw : ColW) : Nat := (colData cw).recs c.maxRep
+
+/-- zip-style: `num_rows` of every row group is the row count of its first column (`firstRecs`: the
+entries with repetition level 0 when that column is REPEATED) -/
+def RowsZip (cols : List Col) : List RgMeta → List (List (List PageRec)) → Prop
   | [], [] => True
-  | g :: gs, p :: ps => g.numRows = firstRows p ∧ RowsZip gs ps
+  | g :: gs, p :: ps => g.numRows = firstRecs cols (p.map pagesData) ∧ RowsZip cols gs ps
   | _, _ => False
 
-theorem rowsZip_append : ∀ (gs : List RgMeta) (ps : List (List (List PageRec))) (g : RgMeta) (p : List (List PageRec)),
-    RowsZip gs ps → g.numRows = firstRows p → RowsZip (gs ++ [g]) (ps ++ [p]) := by
+theorem rowsZip_append (cols : List Col) : ∀ (gs : List RgMeta) (ps : List (List (List PageRec))) (g : RgMeta) (p : List (List PageRec)),
+    RowsZip cols gs ps → g.numRows = firstRecs cols (p.map pagesData) → RowsZip cols (gs ++ [g]) (ps ++ [p]) := by
   intro gs
   induction gs with
   | nil =>
@@ -70,6 +77,27 @@ theorem rowsZip_append : ∀ (gs : List RgMeta) (ps : List (List (List PageRec))
     | nil => exact absurd h (by simp [RowsZip])
     | cons b bs => exact ⟨h.1, ih bs g p h.2 hp⟩
 
+/-! ### rows of a column's content -/
+
+theorem recs_append (m : Nat) (a b : ColData) : (a.append b).recs m = a.recs m + b.recs m := by
+  unfold ColData.recs ColData.append
+  by_cases h : m = 0 <;> simp [h, List.filter_append]
+
+theorem recs_empty (m : Nat) : ({} : ColData).recs m = 0 := by
+  unfold ColData.recs; split <;> rfl
+
+/-- the rows `carquet_writer_write_batch` adds for a batch of column 0 are the rows of what the
+batch contributes -/
+theorem batchData_recs (c : Col) (b : Batch) : (batchData c b).recs c.maxRep = batchRows c b := by
+  unfold ColData.recs batchData batchRows
+  by_cases h : c.maxRep = 0
+  · cases b.reps <;> simp [h]
+  · have h' : c.maxRep > 0 := by omega
+    cases b.reps <;> simp [h, h']
+
+theorem colRecs_empty (c : Col) : colRecs c {} = 0 := by
+  simp [colRecs, colData, pagesData, pageData, ColData.append, ColData.recs]
+
 /-! ### column level -/
 
 theorem colP_empty (pp : PagePred D) (c : Col) : ColP pp c {} :=
@@ -77,12 +105,18 @@ theorem colP_empty (pp : PagePred D) (c : Col) : ColP pp c {} :=
 
 theorem flushPage_colP (pp : PagePred D) (codec : Nat) (c : Col) (cw cw' : ColW) (h : ColP pp c cw)
     (hf : flushPage D codec c cw = some cw') :
-    ColP pp c cw' ∧ colRows cw' = colRows cw ∧ (pagesData cw'.pages).rows = colRows cw := by
+    ColP pp c cw' ∧ colRows cw' = colRows cw ∧ (pagesData cw'.pages).rows = colRows cw ∧
+    colRecs c cw' = colRecs c cw ∧ (pagesData cw'.pages).recs c.maxRep = colRecs c cw := by
   unfold flushPage at hf
   by_cases h0 : cw.page.numValues = 0
   · simp only [h0, if_true, Option.some.injEq] at hf
     subst hf
-    exact ⟨h, rfl, by simp [colRows, pagesData, h0]⟩
+    refine ⟨h, rfl, by simp [colRows, pagesData, h0], rfl, ?_⟩
+    have hr := pp.repsWF c cw.page h.2 h0
+    simp only [colRecs, colData, recs_append]
+    have : (pageData cw.page).recs c.maxRep = 0 := by
+      unfold ColData.recs pageData; split <;> simp [h0, hr]
+    omega
   · simp only [h0, if_false] at hf
     cases hfp : finalizePage D codec c cw.page with
     | none => simp [hfp] at hf
@@ -90,7 +124,7 @@ theorem flushPage_colP (pp : PagePred D) (codec : Nat) (c : Col) (cw cw' : ColW)
       obtain ⟨bytes, unc⟩ := p
       simp only [hfp, Option.some.injEq] at hf
       subst hf
-      refine ⟨⟨?_, pp.empty c⟩, ?_, ?_⟩
+      refine ⟨⟨?_, pp.empty c⟩, ?_, ?_, ?_, ?_⟩
       · intro r hr
         rcases List.mem_append.mp hr with hr | hr
         · exact h.1 r hr
@@ -98,22 +132,31 @@ theorem flushPage_colP (pp : PagePred D) (codec : Nat) (c : Col) (cw cw' : ColW)
           subst this; exact h.2
       · simp [colRows, pageRecOf]
       · simp [colRows, pagesData, pageRecOf]
+      · simp only [colRecs, colData, pagesData_append, recs_append, pageRecOf]
+        have : (pageData ({} : Page)).recs c.maxRep = 0 := by
+          unfold ColData.recs pageData; split <;> simp
+        omega
+      · simp only [colRecs, colData, pagesData_append, recs_append, pageRecOf]
 
 theorem colWriteBatch_colP (pp : PagePred D) (codec target : Nat) (c : Col) (cw cw' : ColW) (b : Batch)
     (h : ColP pp c cw) (hq : pp.Q c b) (hf : colWriteBatch D codec target c cw b = some cw') :
-    ColP pp c cw' ∧ colRows cw' = colRows cw + b.nrows := by
+    ColP pp c cw' ∧ colRows cw' = colRows cw + b.nrows ∧ colRecs c cw' = colRecs c cw + batchRows c b := by
   have hadd : ColP pp c { cw with page := addValues D c cw.page b, totalValues := cw.totalValues + b.nrows } :=
     ⟨h.1, pp.add c cw.page b h.2 hq⟩
   have hrows : colRows { cw with page := addValues D c cw.page b, totalValues := cw.totalValues + b.nrows } =
       colRows cw + b.nrows := by
     simp [colRows, addValues]; omega
+  have hrecs : colRecs c { cw with page := addValues D c cw.page b, totalValues := cw.totalValues + b.nrows } =
+      colRecs c cw + batchRows c b := by
+    simp only [colRecs, colData, addValues_data, recs_append, batchData_recs]
+    omega
   unfold colWriteBatch at hf
   by_cases ht : target ≤ estimatedSize D c (addValues D c cw.page b)
   · simp only [ht, if_true] at hf
-    obtain ⟨a1, a2, _⟩ := flushPage_colP pp codec c _ _ hadd hf
-    exact ⟨a1, a2.trans hrows⟩
+    obtain ⟨a1, a2, _, a4, _⟩ := flushPage_colP pp codec c _ _ hadd hf
+    exact ⟨a1, a2.trans hrows, a4.trans hrecs⟩
   · simp only [ht, if_false, Option.some.injEq] at hf
-    subst hf; exact ⟨hadd, hrows⟩
+    subst hf; exact ⟨hadd, hrows, hrecs⟩
 
 theorem colsP_fresh (pp : PagePred D) : ∀ cols : List Col, ColsP pp cols (cols.map (fun _ => ({} : ColW))) := by
   intro cols
@@ -163,7 +206,9 @@ theorem finalizeCols_colsP (pp : PagePred D) (w : W) : ∀ (cols : List Col) (cw
     (r : Bytes × List ChunkMeta), ColsP pp cols cws →
     finalizeCols D w cols cws off = some r →
     GroupP pp cols (finalizeColsPages D w cols cws) ∧ ChunksFor w.codec cols r.2 ∧
-    (finalizeColsPages D w cols cws).map (fun p => (pagesData p).rows) = cws.map colRows := by
+    (finalizeColsPages D w cols cws).map (fun p => (pagesData p).rows) = cws.map colRows ∧
+    List.zipWith (fun (c : Col) (d : ColData) => d.recs c.maxRep) cols ((finalizeColsPages D w cols cws).map pagesData) =
+      List.zipWith colRecs cols cws := by
   intro cols
   induction cols with
   | nil =>
@@ -187,22 +232,23 @@ theorem finalizeCols_colsP (pp : PagePred D) (w : W) : ∀ (cols : List Col) (cw
         cases hr : finalizeCols D w cs cws (off + cw'.buffer.length) with
         | none => simp [hr] at hf
         | some p =>
-          obtain ⟨i1, i2, i3⟩ := ih cws _ p h.2 hr
-          obtain ⟨a1, a2, a3⟩ := flushPage_colP pp w.codec c cw cw' h.1 hfl
+          obtain ⟨i1, i2, i3, i4⟩ := ih cws _ p h.2 hr
+          obtain ⟨a1, a2, a3, _, a5⟩ := flushPage_colP pp w.codec c cw cw' h.1 hfl
           simp only [hr, Option.some.injEq] at hf
           subst hf
           simp only [finalizeColsPages, hfl]
-          refine ⟨⟨a1.1, i1⟩, ⟨⟨by simp [chunkOf], by simp [chunkOf], by simp [chunkOf]⟩, i2⟩, ?_⟩
-          simp [a3, i3]
+          refine ⟨⟨a1.1, i1⟩, ⟨⟨by simp [chunkOf], by simp [chunkOf], by simp [chunkOf]⟩, i2⟩, ?_, ?_⟩
+          · simp [a3, i3]
+          · simp only [List.map_cons, List.zipWith_cons_cons, a5, i4]
 
 /-! ### writer states -/
 
 /-- the combined invariant -/
 def XInv (pp : PagePred D) (w : W) : Prop :=
   (∀ g ∈ w.pagesDone, GroupP pp w.cols g) ∧
-  (∀ cws, w.rg = some cws → ColsP pp w.cols cws ∧ w.rgRows = (cws.map colRows).headD 0) ∧
+  (∀ cws, w.rg = some cws → ColsP pp w.cols cws ∧ w.rgRows = (List.zipWith colRecs w.cols cws).headD 0) ∧
   (∀ g ∈ w.rowGroups, ChunksFor w.codec w.cols g.chunks) ∧
-  (RowsZip w.rowGroups w.pagesDone ∧ ∀ (i : Nat) (g : RgMeta), w.rowGroups[i]? = some g → g.ordinal = i)
+  (RowsZip w.cols w.rowGroups w.pagesDone ∧ ∀ (i : Nat) (g : RgMeta), w.rowGroups[i]? = some g → g.ordinal = i)
 
 theorem xinv_init (pp : PagePred D) (cols : List Col) (codec pageSize : Nat) (createdBy : String) :
     XInv pp { cols := cols, codec := codec, pageSize := pageSize, createdBy := createdBy } :=
@@ -224,6 +270,10 @@ theorem headD_map_replicate_colRows (cols : List Col) :
     ((cols.map (fun _ => ({} : ColW))).map colRows).headD 0 = 0 := by
   cases cols <;> simp [colRows]
 
+theorem headD_zip_fresh_colRecs (cols : List Col) :
+    (List.zipWith colRecs cols (cols.map (fun _ => ({} : ColW)))).headD 0 = 0 := by
+  cases cols <;> simp [colRecs_empty]
+
 theorem xinv_ensureRowGroup (pp : PagePred D) (w : W) (h : XInv pp w) : XInv pp (ensureRowGroup w) := by
   unfold ensureRowGroup
   cases hr : w.rg with
@@ -234,7 +284,7 @@ theorem xinv_ensureRowGroup (pp : PagePred D) (w : W) (h : XInv pp w) : XInv pp 
     intro cws hc
     simp only [Option.some.injEq] at hc
     subst hc
-    exact ⟨colsP_fresh pp w.cols, (headD_map_replicate_colRows w.cols).symm⟩
+    exact ⟨colsP_fresh pp w.cols, (headD_zip_fresh_colRecs w.cols).symm⟩
 
 theorem headD_set_colRows : ∀ (cws : List ColW) (i : Nat) (cw cw' : ColW) (n : Nat),
     cws[i]? = some cw → colRows cw' = colRows cw + n →
@@ -249,6 +299,24 @@ theorem headD_set_colRows : ∀ (cws : List ColW) (i : Nat) (cw cw' : ColW) (n :
       subst hc
       simp [hr]
     | succ k => simp
+
+theorem headD_set_colRecs : ∀ (cols : List Col) (cws : List ColW) (i : Nat) (c : Col) (cw cw' : ColW) (n : Nat),
+    cols[i]? = some c → cws[i]? = some cw → colRecs c cw' = colRecs c cw + n →
+    (List.zipWith colRecs cols (cws.set i cw')).headD 0 =
+      (List.zipWith colRecs cols cws).headD 0 + (if i = 0 then n else 0) := by
+  intro cols cws i c cw cw' n hcol hc hr
+  cases cols with
+  | nil => simp at hcol
+  | cons a as =>
+    cases cws with
+    | nil => simp at hc
+    | cons x xs =>
+      cases i with
+      | zero =>
+        simp only [List.getElem?_cons_zero, Option.some.injEq] at hc hcol
+        subst hc; subst hcol
+        simp [hr]
+      | succ k => simp
 
 theorem xinv_writeBatch (pp : PagePred D) (w : W) (b : Batch) (h : XInv pp w)
     (hq : ∀ c, w.cols[b.col]? = some c → pp.Q c b) : XInv pp (writeBatch D w b).1 := by
@@ -277,7 +345,7 @@ theorem xinv_writeBatch (pp : PagePred D) (w : W) (b : Batch) (h : XInv pp w)
           obtain ⟨s1, s2⟩ := r2 cws hrg
           rw [hfields.1] at s1
           have hcp := colsP_get pp w.cols cws b.col c cw s1 hc hcw
-          obtain ⟨k1, k2⟩ := colWriteBatch_colP pp w.codec _ c cw cw' b hcp (hq c hc) hcb
+          obtain ⟨k1, _, k3⟩ := colWriteBatch_colP pp w.codec _ c cw cw' b hcp (hq c hc) hcb
           refine ⟨r1, ?_, r3, r4⟩
           intro cws' hc'
           simp only [Option.some.injEq] at hc'
@@ -286,9 +354,9 @@ theorem xinv_writeBatch (pp : PagePred D) (w : W) (b : Batch) (h : XInv pp w)
           · show ColsP pp (ensureRowGroup (ensureHeader w)).cols _
             rw [hfields.1]
             exact colsP_set pp w.cols cws b.col c cw' s1 hc k1
-          · show (ensureRowGroup (ensureHeader w)).rgRows + _ = _
-            rw [s2]
-            exact (headD_set_colRows cws b.col cw cw' b.nrows hcw k2).symm
+          · show (ensureRowGroup (ensureHeader w)).rgRows + _ = (List.zipWith colRecs (ensureRowGroup (ensureHeader w)).cols _).headD 0
+            rw [s2, hfields.1]
+            exact (headD_set_colRecs w.cols cws b.col c cw cw' (batchRows c b) hc hcw k3).symm
 
 theorem xinv_flushRowGroup (pp : PagePred D) (w : W) (h : XInv pp w) : XInv pp (flushRowGroup D w).1 := by
   unfold flushRowGroup
@@ -301,7 +369,7 @@ theorem xinv_flushRowGroup (pp : PagePred D) (w : W) (h : XInv pp w) : XInv pp (
     | some p =>
       obtain ⟨h1, h2, h3, h4⟩ := h
       obtain ⟨s1, s2⟩ := h2 cws hr
-      obtain ⟨d1, d2, d3⟩ := finalizeCols_colsP pp w w.cols cws _ p s1 hf
+      obtain ⟨d1, d2, _, d4⟩ := finalizeCols_colsP pp w w.cols cws _ p s1 hf
       obtain ⟨bytes, metas⟩ := p
       simp only
       refine ⟨?_, fun cws' hc => by simp at hc, ?_, ?_⟩
@@ -318,9 +386,9 @@ theorem xinv_flushRowGroup (pp : PagePred D) (w : W) (h : XInv pp w) : XInv pp (
             simpa using hg
           subst hg'; exact d2
       · refine ⟨?_, ?_⟩
-        · apply rowsZip_append _ _ _ _ h4.1
-          show w.rgRows = firstRows _
-          rw [s2, firstRows, d3]
+        · apply rowsZip_append _ _ _ _ _ h4.1
+          show w.rgRows = firstRecs _ _
+          rw [s2, firstRecs, d4]
         · intro i g hg
           by_cases hi : i < w.rowGroups.length
           · rw [List.getElem?_append_left hi] at hg
